@@ -85,6 +85,34 @@ example : Ecal.Parse.WellFormed exIf = true ∧ Ecal.Parse.WellFormed exTry2 = t
   decide
 
 /-- … and the refinement theorem speaks about them as compound statements, not leaves -/
-example (f sc : Nat) : ∃ a b, stmtOf (f+2) sc exBody2 = .seq a b := ⟨_, _, rfl⟩
+example (f sc : Nat) : ∃ a b, stmtOf (f+2) sc exBody2 = .seq a b := by
+  refine ⟨stmtOf (f+1) sc exBreak, stmtOf (f+1) sc exNull, ?_⟩
+  conv => lhs; unfold stmtOf
+  simp [exBody2, exNode, Ecal.Parse.Node.name, Ecal.Parse.Node.children, allSome, seqOf]
+
+/-! `try {⏎not null⏎} except "E1", r"Operand is not a boolean" {⏎}` :
+`try|69|747279|0|0|1|1|2;statements|-|-|0|0|0|0|1;not|54|6e6f74|0|0|2|1|1;null|62|6e756c6c|0|0|2|5|0;except|70|657863657074|0|0|3|3|3;string|5|4531|1|0|3|10|0;string|5|4f70…|0|0|3|16|0;statements|-|-|0|0|0|0|0` -/
+def exS1 : Node := exNode "string" (some { exTok 5 "E1" 3 10 with allowEscapes := true, val := [69, 49] }) []   -- bytes of E1
+def exS2 : Node := exNode "string" (some (exTok 5 "Operand is not a boolean" 3 16)) []
+def exExc4 : Node := exNode "except" (some (exTok 70 "except" 3 3)) [some exS1, some exS2, some exStm]
+
+/-- `spec_first_listed_clause`: the clause of the real tree has the typed shape, its literals are plain, and it
+    handles an error iff its type is "E1" or "Operand is not a boolean" -/
+example (g : Nat → Node → Stmt) (f sc : Nat) (rest : Clauses) (e : Sig) (s : St) :
+    Spec.handle (clauseOfNode g (f+2) sc exExc4 rest) e s =
+      if ([exS1, exS2].map textOf).any (fun b => bytesToString b == errType e) then
+        (match Spec.exec (clauseBody g sc exExc4 exStm) s with
+         | (.normal _, s2) => (.normal Val.null, s2)
+         | (o, s2) => (o, s2))
+      else Spec.handle rest e s := by
+  have hs : clauseShape exExc4 = .typed exS1 [exS2] exStm := by
+    simp [clauseShape, exExc4, exS1, exS2, exStm, exNode, Ecal.Parse.Node.children, Ecal.Parse.Node.name, allSome]
+  refine spec_first_listed_clause g f sc exExc4 exS1 exStm [exS2] rest e s hs ?_
+  intro x hx
+  rcases List.mem_cons.1 hx with rfl | hx
+  · exact PlainStr.of_plain rfl rfl (by decide)
+  · rcases List.mem_cons.1 hx with rfl | hx
+    · exact PlainStr.of_raw rfl rfl rfl
+    · cases hx
 
 end Ecal.Props.C04
